@@ -212,6 +212,74 @@ class Ctx:
         rc, out, err, dt = run(cmd, timeout=timeout, input=input, env=GOENV)
         return rc, out, err
 
+    # ------------------------------------------------------------ standard skeleton
+    def prepare(self, gen_names, dirs, model_module=None, extra_targets=()):
+        """srcgen + Coq build of <dir>/Properties.vo and <dir>/Run.vo for each dir + harness build + model extraction.
+        Returns a dict describing what is intact."""
+        pid = self.pid
+        self.srcgen()
+        broken = []
+        for g in gen_names:
+            broken += self.srcgen_summary["broken_by_file"].get(g, [])
+        targets = []
+        for d in dirs:
+            for f in ("Properties", "Run"):
+                if os.path.exists(os.path.join(COQ, d, f + ".v")):
+                    targets.append("%s/%s.vo" % (d, f))
+        targets += list(extra_targets)
+        built, log = self.coq_build(targets)
+        hyg = self.hygiene(["Base", "Generated"] + list(dirs))
+        props = [t[:-1] for t in targets if t.endswith("Properties.vo")]
+        thms, discharged = [], 0
+        for pf in props:
+            names = self.theorems(pf)
+            thms += names
+            if built.get(pf + "o") and not hyg:
+                discharged += len(names)
+        st = {"broken": broken, "built": built, "hygiene": hyg, "theorems": thms, "discharged": discharged,
+              "proofs_ok": discharged == len(thms) and not hyg and not broken and len(thms) > 0,
+              "props": props, "model_ok": False, "harness_ok": False}
+        ok, err = self.build_drv()
+        st["harness_ok"] = ok
+        if not ok:
+            self.violation(pid + ":harness-build", "harness does not build against /repo: " + err[-400:], {"stderr": err[-3000:]}, False)
+        if model_module:
+            run_vo = model_module.replace(".", "/") + ".vo"
+            if built.get(run_vo):
+                okm, merr = self.build_model(model_module)
+                st["model_ok"] = okm
+                if not okm:
+                    self.violation(pid + ":model-extract", "model extraction failed: " + merr[-300:], {"output": merr[-2000:]}, False)
+        self.status = st
+        return st
+
+    def proof_verdict(self):
+        """if the proof side is broken and no concrete failing input was reported, report the broken obligation"""
+        st = self.status
+        if st["proofs_ok"]:
+            return
+        if any(v[2] for v in self.violations):
+            return
+        what = st["broken"] or st["hygiene"] or [t for t, v in st["built"].items() if not v] or ["no theorems found"]
+        self.violation(self.pid + ":proof", "proof obligations no longer check: %s" % (what,),
+                       {"broken": what, "coq_log_tail": (self.coq or {}).get("log_tail", "")[-2500:]}, False)
+
+    def proof_coverage(self, extra_trusted, fp_prefixes):
+        st = self.status
+        assum = []
+        if st["proofs_ok"]:
+            for pf in st["props"]:
+                assum += [l.strip() for l in self.assumptions(pf).splitlines() if l.strip()]
+        fp = self.fingerprints_changed(fp_prefixes)
+        if fp:
+            self.notes.append("fingerprints of hand-modelled functions changed since baseline (not a violation; budget escalated): %s" % fp)
+        return {"obligations": len(st["theorems"]), "discharged": st["discharged"],
+                "checker_cmd": "make -C /verif/coq %s (coqc 8.16.1, full .vo build; Print Assumptions per theorem)" % " ".join(p + "o" for p in st["props"]),
+                "trusted_base": ["Coq 8.16.1 kernel + vm_compute (no native_compute)",
+                                 "Print Assumptions: " + (" | ".join(sorted(set(assum)))[:800] or "n/a (proofs not built)"),
+                                 "extraction: ExtrOcamlBasic only; generic OCaml line driver /verif/ocaml/main.ml"] + list(extra_trusted),
+                "theorems": st["theorems"], "srcgen_broken": st["broken"], "fingerprints_changed": fp}
+
     # ------------------------------------------------------------ verdicts
     def violation(self, key, detail, replay_obj, found_input=True):
         """key: finding key (entry point + input class).  Known findings are reported separately."""
